@@ -23,14 +23,14 @@ import (
 
 // c06Case is self-contained for replay: device key size, chain relation, label, TBS bytes and signature.
 type c06Case struct {
-	Bits  int    // RSA device key size; 0 = non-RSA device key (KeyType says which)
+	Bits    int // RSA device key size; 0 = non-RSA device key (KeyType says which)
 	KeyType string
-	Chain string // root | otherca | selfsigned | expired | notyet | missing-intermediate | via-intermediate
-	Label int    // x509.SignatureAlgorithm
-	TBS   string // hex
-	Sig   string // hex
-	EM    string `json:",omitempty"` // hex; when Sig is empty the harness computes Sig = EM^d mod N
-	Note  string
+	Chain   string // root | otherca | selfsigned | expired | notyet | missing-intermediate | via-intermediate
+	Label   int    // x509.SignatureAlgorithm
+	TBS     string // hex
+	Sig     string // hex
+	EM      string `json:",omitempty"` // hex; when Sig is empty the harness computes Sig = EM^d mod N
+	Note    string
 }
 
 var c06Hashes = []crypto.Hash{crypto.SHA1, crypto.SHA256, crypto.SHA384, crypto.SHA512}
